@@ -50,6 +50,7 @@ def main():
     ap.add_argument("--name")
     ap.add_argument("--skip-confirm", action="store_true")
     ap.add_argument("--refactor", action="store_true", help="the change is a behaviour-preserving refactoring: the demo must pass with and without it, and every check must stay silent; stored under /verif/refactors/")
+    ap.add_argument("--confirm-only", action="store_true", help="only the worktree phase (build, suite, demo with / without the change); the result is kept in /tmp/seed/_confirm_<id>.json for the later full run - this phase does not touch /repo, so many can run side by side")
     ap.add_argument("--recheck", action="store_true", help="re-run the checks against the stored patch (worktree gone); keeps first_run_caught")
     a = ap.parse_args()
     wt = "/tmp/seed/" + a.id
@@ -60,6 +61,11 @@ def main():
         a.skip_confirm = True
         a.patch = os.path.join(VERIF, "refactors" if a.refactor else "seeded", name, "patch.diff")
         meta = {}
+    cj = "/tmp/seed/_confirm_%s.json" % a.id
+    if not a.skip_confirm and not a.confirm_only and os.path.exists(cj):
+        meta.update(json.load(open(cj)))
+        a.skip_confirm = True
+        print("confirm (cached):", json.dumps({k: meta.get(k) for k in ("build_with_change", "suite_with_change", "demo_with_change", "demo_without_change", "confirmed")}))
     if not a.skip_confirm:
         rc, out = sh("cargo build --offline 2>&1 | tail -2", wt, {"CARGO_TARGET_DIR": wt + "/target"})
         meta["build_with_change"] = "ok" if "Finished" in out else out[-300:]
@@ -84,6 +90,9 @@ def main():
         print("confirm:", json.dumps({k: meta[k] for k in ("build_with_change", "suite_with_change", "demo_with_change", "demo_without_change", "confirmed")}))
         if not ok:
             print("NOT CONFIRMED")
+        if a.confirm_only:
+            json.dump({k: meta[k] for k in ("build_with_change", "suite_with_change", "demo_with_change", "demo_without_change", "suite_without_change", "confirmed")}, open(cj, "w"))
+            return 0
     patch = a.patch or os.path.join(wt, "patch.diff")
     rc, out = sh(["git", "-C", "/repo", "apply", "--check", patch], "/")
     if rc != 0:
@@ -92,8 +101,16 @@ def main():
     sh(["git", "-C", "/repo", "apply", patch], "/")
     fired = {}
     try:
-        for pr in a.props.split(","):
-            rc, out = sh([os.path.join(VERIF, "check"), pr, "--tier", "quick"], VERIF, {"JBV_EVIDENCE": "/tmp/seed/_evidence_" + name})
+        import concurrent.futures
+        props_ = a.props.split(",")
+
+        def run1(pr):
+            return pr, sh([os.path.join(VERIF, "check"), pr, "--tier", "quick"], VERIF, {"JBV_EVIDENCE": "/tmp/seed/_evidence_%s_%s" % (name, pr)})
+        # the first check extracts the facts of the changed tree; the others reuse the cache
+        results = [run1(props_[0])]
+        with concurrent.futures.ThreadPoolExecutor(max_workers=8) as ex:
+            results += list(ex.map(run1, props_[1:]))
+        for pr, (rc, out) in results:
             vio = [l.strip() for l in out.splitlines() if l.startswith("  ") and "rule=" in l]
             if "internal-error" in out:
                 fired[pr] = {"rc": rc, "error": out[-400:]}
@@ -104,7 +121,8 @@ def main():
                 print("     " + v[:300])
     finally:
         sh(["git", "-C", "/repo", "checkout", "--", "."], "/")
-        shutil.rmtree("/tmp/seed/_evidence_" + name, ignore_errors=True)
+        for pr_ in a.props.split(","):
+            shutil.rmtree("/tmp/seed/_evidence_%s_%s" % (name, pr_), ignore_errors=True)
     meta["checks_run"] = a.props.split(",")
     meta["checks_fired"] = fired
     meta["caught_by_own_property_check"] = pid in fired and "violations" in fired.get(pid, {})
